@@ -71,7 +71,11 @@ def require_ok(r):
 _REJ = re.compile(r'<<"REJECT", (-?\d+), (-?\d+), "([^"]*)">>')
 
 
+_VALIDATION = [0]
+
+
 def validate_shard(path, wd, k, timeout=3600, heap='3g', module='Trace.tla', cfg='Trace.cfg'):
+    # (validations may run concurrently from several threads of one check: every run gets its own metadir)
     meta = os.path.join(wd, f'meta_trace_{k}')
     shutil.rmtree(meta, ignore_errors=True)
     rc, out, wall = _tlc(['-workers', '1', '-metadir', meta, '-noGenerateSpecTE', '-config', cfg, module],
@@ -89,8 +93,10 @@ def validate_shards(paths, wd, par=16, timeout=3600):
     if not paths:
         return {'states': 0, 'transitions': 0, 'rejects': [], 'wall': 0.0}
     t0 = time.time()
+    _VALIDATION[0] += 1
+    run = _VALIDATION[0]
     with ThreadPoolExecutor(max_workers=par) as ex:
-        rs = list(ex.map(lambda kp: validate_shard(kp[1], wd, kp[0], timeout=timeout), enumerate(paths)))
+        rs = list(ex.map(lambda kp: validate_shard(kp[1], wd, f'{run}_{kp[0]}', timeout=timeout), enumerate(paths)))
     for p, r in zip(paths, rs):
         if not r['ok']:
             lines = r['out'].splitlines()
